@@ -242,7 +242,7 @@ def benign(props):
             if rc == 0:
                 rcb, outb = sh("go build ./pkg/... && go build -tags verif ./pkg/... && go build -ldflags=-checklinkname=0 ./cmd/...", cwd=WT)
                 r['build'] = rcb
-                r['stable_missing'] = stable_ok()
+                r['stable_missing'] = stable_ok() if os.environ.get('BENIGN_STABLE') else None   # the authors ran them; set BENIGN_STABLE=1 to repeat
                 r['detect'] = detect(d, [pid])
                 r['quiet'] = bool(r['detect']) and r['detect'][pid]['rc'] == 0 and not any(l.startswith('VIOLATION') for l in r['detect'][pid]['lines'])
         except Exception as e:
